@@ -8,6 +8,7 @@ package redis
 
 import (
 	"context"
+	"fmt"
 	"sort"
 	"time"
 
@@ -29,6 +30,11 @@ type c12Entry struct {
 	wire func(s c12Step) [][]string
 	// skip: the step is not executed in the current state (blocking pops on empty lists).
 	skip func(e *c12Env, s c12Step) bool
+	// ints: indices in I of the arguments the wrapper method takes as a Go int. The
+	// generated value is made to fit the int of the build (identity on 64-bit builds, so
+	// that a 32-bit build - unit lib/store/redis@386 - hands the wrapper and go-redis the
+	// same number: "the same arguments" are arguments the caller can pass).
+	ints []int
 	// scriptedOnly: the command is missing in miniredis; it is generated only inside
 	// scripted steps (both servers answer with a scripted reply instead of executing)
 	scriptedOnly bool
@@ -52,6 +58,25 @@ func c12Finish() {
 		c12Names = append(c12Names, n)
 	}
 	sort.Strings(c12Names)
+	for name, ints := range map[string][]int{"Expire": {0}, "HIncrBy": {0}, "LRange": {0, 1}, "LRem": {0}, "SetBit": {1},
+		"SetEx": {0}, "SetNXEx": {0}, "SRandMember": {0},
+		"ZRangeByScoreWithScoresAndLimit": {2, 3}, "ZRevRangeByScoreWithScoresAndLimit": {2, 3}} {
+		ent := c12Table[name]
+		if ent == nil {
+			panic("c12: int arguments declared for unknown entry " + name)
+		}
+		ent.ints = ints
+		inner := ent.gen
+		ent.gen = func(g *c12G) c12Step {
+			s := inner(g)
+			for _, i := range ints {
+				if i < len(s.I) {
+					s.I[i] = int64(int(s.I[i]))
+				}
+			}
+			return s
+		}
+	}
 	for _, n := range c12Names {
 		w := c12Table[n].weight
 		if w == 0 {
@@ -66,6 +91,7 @@ func c12Finish() {
 	}
 }
 
+// c12Anys: the variadic argument list of a step in the call form s.V (see c12Step.V).
 func c12Anys(s c12Step) []any {
 	out := make([]any, 0, len(s.S)+len(s.I))
 	for _, x := range s.S {
@@ -73,6 +99,20 @@ func c12Anys(s c12Step) []any {
 	}
 	for _, x := range s.I {
 		out = append(out, x)
+	}
+	switch s.V {
+	case 1:
+		strs := make([]string, len(out))
+		for i, x := range out {
+			strs[i] = fmt.Sprint(x)
+		}
+		return []any{strs}
+	case 2:
+		return []any{out}
+	case 3:
+		return []any{[]any{out}}
+	case 4:
+		return nil
 	}
 	return out
 }
